@@ -175,6 +175,14 @@ def panic_sweep(tier, seed, mode):
 
 def allocfail_sweep(tier, seed, mode):
     base = short_sequences(tier, seed ^ 7, mode, ["w4", "s16", "big", "a32"])
+    # systematic part: every operation of the alphabet on the start states that own a block / are exactly full
+    k0 = 0
+    for cls in ("w4", "s16"):
+        for label, pre in G.start_states(cls):
+            if label not in ("sentinel", "part", "full", "over64"):
+                continue
+            for seq in [[op] for op in G.mutating_ops(args=[0, 1, 2, 5])] + G.two_reg_ops() + G.iter_ops()[::5]:
+                base.append(G.case("sqa-%s-%s-%d" % (cls, label, k0), cls, mode, pre + list(seq))); k0 += 1
     out = []
     for k in (range(1, 5) if tier == "quick" else range(1, 9)):
         out += rename(with_directive(base, "!allocfail_at %d" % k), "-a%d" % k)
@@ -285,6 +293,32 @@ def clone_panic_cases(mode):
                 n += 1
     return out
 
+def extend_ref_cases(mode):
+    """`Extend<&T>` for a Copy element type with honest, lying and non-fused by-reference iterators"""
+    out = []
+    k = 0
+    M = (1 << 64) - 1
+    for pre in (0, 1, 4, 8, 9):
+        for fill in ("it[]", "it[7]", "it[1,2,3,4,5,6,7,8,9,10,11]", "it[1,2,N,3,4,5,6,7,8,9,10,11,12,13,14,15,16,17,18,19,20]", "it[N,1,2,3]"):
+            for h in ("", "h0-0", "h0-1", "h0-3", "h2-2", "h100-N", "h0-N", "h%d-N" % M, "h0-%d" % M, "h5-1"):
+                out.append(G.case("er-%d" % k, "w4", mode, ["extend_ref %d %s%s" % (pre, fill, h)])); k += 1
+    return out
+
+def huge_hint_cases(mode):
+    """source / replacement iterators whose size_hint bounds are near usize::MAX (arithmetic on a hint
+    must not wrap in the optimized profile), on vectors that are exactly full, partly filled and never allocated"""
+    out = []
+    k = 0
+    M = (1 << 64) - 1
+    for cls in ("w4", "b1", "s16"):
+        for label, pre in G.start_states(cls):
+            if label not in ("sentinel", "part", "full", "over64"):
+                continue
+            for fill in ("it[7,8,9]", "it[]", "it[7,8,9,10,11,12,13]"):
+                for h in ("h%d-N" % M, "h%d-%d" % (M, M), "h%d-N" % (M - 1), "h%d-N" % (M // 2), "h%d-N" % (M // 2 + 1), "h0-%d" % M):
+                    out.append(G.case("hh-%s-%s-%d" % (cls, label, k), cls, mode, pre + ["extend v0 %s%s" % (fill, h), "push v0 77", "splice v0 I0 E1 %s%s it" % (fill, h), "drop it", "collect c %s%s" % (fill, h)], ["!vecdiff off"])); k += 1
+    return out
+
 def lying_hint_cases(mode):
     """Splice / extend / collect with replacement iterators whose size_hint is wrong in either direction:
     every item the iterator yields must still arrive (std::vec::Vec is the reference)"""
@@ -392,6 +426,22 @@ def serde_cases(tier, seed, mode):
             for sq in seqs:
                 for h in (hints if label in ("part", "sentinel") else ["N", "2", "1024", str(M)]):
                     out.append(G.case("sdi-%s-%s-%d" % (cls, label, k), cls, mode, pre + ["serialize v0", "deserialize_in_place v0 %s %s" % (h, sq), "serialize v0", "push v0 5", "pop v0"])); k += 1
+    # accesses that are not fused: `Ok(None)` in the middle, then more items that must never be asked for
+    for cls in ("w4", "s16"):
+        for label, pre in G.start_states(cls):
+            for sq in ("sq[N,7,8]", "sq[1,N,7,8]", "sq[1,2,N,7,8,9,10,11,12]", "sq[1,2,3,4,5,6,7,8,9,N,5]", "sq[N,E]", "sq[1,N,E]"):
+                for h in ("N", "2", "9"):
+                    out.append(G.case("sdn-%s-%s-%d" % (cls, label, k), cls, mode, pre + ["deserialize_in_place v0 %s %s" % (h, sq), "serialize v0", "deserialize w %s %s" % (h, sq), "push v0 5"])); k += 1
+    # more than 1024 elements really arrive while the input claims an absurd length: no request may be sized by the claim
+    many = ",".join(str(i % 7) for i in range(1100))
+    for cls in ("b1", "w4", "s16"):
+        if cls == "b1":
+            continue      # class b1 has 255 identities
+        for h in (str(1 << 30), str(1 << 40), str(M), "2000", "N"):
+            out.append(G.case("sdm-%s-%d" % (cls, k), cls, mode, ["deserialize v0 %s sq[%s]" % (h, many), "push v0 5"])); k += 1
+            out.append(G.case("sdm-%s-%d" % (cls, k), cls, mode, ["macro_list v0 1 2 3", "deserialize_in_place v0 %s sq[%s]" % (h, many), "push v0 5"])); k += 1
+    for nbytes in (0, 1, 3, 8, 100, 1025):
+        out.append(G.case("sdu8-%d" % k, "w4", mode, ["serialize_u8 %d" % nbytes])); k += 1
     # every position x injected element error, round trip of random contents
     n = 100 if tier == "quick" else 1000
     for i in range(n):
@@ -467,7 +517,8 @@ PROPS = {
             "cases": lambda tier, seed: [("debug", corpus("debug", "C14") + raw_cases(tier, seed, "debug")), ("release", raw_cases(tier, seed, "release"))],
             "owned_oracles": ["O rawparts", "O cap", "O ledger", "X signal", "O vec-mismatch", "rawparts-null", "O alloc"], "owned_diffs": ["ub", "result", "contents", "crash", "panic"]},
     "C17": {"modules": ["MiniVecProof.Props.C17"],
-            "cases": lambda tier, seed: [("debug", corpus("debug", "C17") + hostile_cases(tier, seed, "debug"))],
+            "cases": lambda tier, seed: [("debug", corpus("debug", "C17") + hostile_cases(tier, seed, "debug") + huge_hint_cases("debug") + extend_ref_cases("debug")),
+                                         ("release", huge_hint_cases("release") + extend_ref_cases("release"))],
             "owned_oracles": ["O ledger", "O alloc", "X signal 11"], "owned_diffs": ["own", "contents", "result", "alloc", "ub", "crash"],
             "partial_missing": ["proved: retain under an ARBITRARY (stateful, inconsistent) non-panicking predicate keeps a sublist of live elements, destroys exactly the others once, no allocator traffic (C17_retain_partial, C17_live_distinct); dedup / dedup_by / dedup_by_key under an arbitrary equality script, predicate or key function (C17_dedup_partial); extend / collect with an arbitrary (non-fused) source iterator (C17_extend_partial, C17_collect_partial); clone under an arbitrary Clone (C12_clone_partial); splice with non-fused or lying iterators, drain_filter, resize_with, remove_item, comparisons: scripted callbacks enumerated exhaustively up to length 4 (quick) / 6 (thorough) by the correspondence only"]},
     "C19": {"modules": ["MiniVecProof.Props.C19"],
@@ -586,10 +637,14 @@ def correspondence(pid, tier, seed, model_ok=True):
                 for i, op in enumerate(ops):
                     a = op.args
                     if op.name == "with_alignment" and op.result == "ok" and len(a) == 3 and int(a[2]) > ALIGN.get(cls, 8):
-                        over.add(a[0])
+                        # D11 bites exactly when the data offset the block was laid out with differs from the one
+                        # from_raw_part(s) walks back by: round_up(24, A) != round_up(24, max(align_of::<T>(), 8))
+                        ru = lambda x, al: (x + al - 1) // al * al
+                        if ru(24, int(a[2])) != ru(24, ALIGN.get(cls, 8)):
+                            over.add(a[0])
                     if op.name in ("raw_part", "raw_parts") and a and a[0] in over and d11_from is None:
                         d11_from = i
-            D11SIG = "D11:from_raw_part(s) on a buffer whose recorded alignment exceeds max(align_of::<T>(), 8)"
+            D11SIG = "D11:from_raw_part(s) on an over-aligned buffer whose data offset round_up(24, A) differs from round_up(24, max(align_of::<T>(), 8))"
             for kind, i, textv in found:
                 opname = ops[i].name if i < len(ops) else "?"
                 sig = "%s:%s:%s" % (kind, opname, cls)
